@@ -114,3 +114,35 @@ func TestProbe_GobNil(t *testing.T) {
 	err = q.HandlePolyEvalMsg(puredkg.PolyEvalMsg{Eon: 1, Sender: 1, Receiver: 0, Eval: big.NewInt(5)})
 	t.Logf("HandlePolyEvalMsg after reload: %v", err)
 }
+
+func TestProbe_Template(t *testing.T) {
+	if os.Getenv("VERIF_PROBE") == "" {
+		t.Skip("development probe")
+	}
+	ctx := context.Background()
+	for _, L := range []int64{8} {
+		st := ByzStrategy{Commit: cmCorrect, Eval: map[int]int{0: evWrong, 1: evCorrect}, Apology: apCorrect, DealOff: 2, AccOff: 1, ApoOff: 2}
+		sc := Scenario{N: 3, T: 2, L: L, Order: []int{0, 1, 2}, Byz: map[int]ByzStrategy{2: st}, Fair: false,
+			Stalls: []stall{{Pos: 0, From: int(L) - 2, Len: int(L) + 4}}}
+		r, err := newRun(ctx, sc, &detChooser{seed: "tmpl"})
+		if err != nil {
+			t.Fatal(err)
+		}
+		if err := r.execute(); err != nil {
+			t.Fatal(err)
+		}
+		stt, ref := r.checkAgreement(func(sig, f string, a ...any) { t.Errorf("FAIL %s: "+f, append([]any{sig}, a...)...) }, true)
+		t.Logf("L=%d stats=%+v disq=%v", L, stt, ref.Disq)
+		t.Logf("%s", r.history())
+		for _, tx := range r.chain.AllTxs {
+			if tx.Height > r.h0 {
+				t.Logf("h=%d(+%d) %s code=%d %s", tx.Height, tx.Height-r.h0, tx.Origin, tx.Code, msgKind(tx))
+			}
+		}
+		for _, p := range sc.honest() {
+			o, _ := r.outcome(r.nodes[p])
+			t.Logf("k%d: %+v", p, o)
+		}
+		r.close()
+	}
+}
